@@ -112,6 +112,26 @@ struct Interp<'a> {
     panics: usize,
     obs: Vec<Obs>,
     sched: &'a dyn Sched,
+    /// every panic step owns a value whose destructor calls catch_panic while the panic unwinds
+    guards: bool,
+}
+
+/// A value whose destructor runs a (returning) catch_panic: when it is dropped by an
+/// unwinding panic this is one more "catch" step between the panic and the frame that
+/// receives it, which must not change what that frame reports.
+struct NestedCatchOnDrop(u32);
+impl Drop for NestedCatchOnDrop {
+    fn drop(&mut self) {
+        let n = self.0;
+        let r = catch_panic(move || n + 1);
+        if r != Ok(n + 1) {
+            DROP_PROBLEMS.with(|d| d.borrow_mut().push(format!("catch_panic in a destructor returned {:?}", r)));
+        }
+    }
+}
+
+thread_local! {
+    static DROP_PROBLEMS: RefCell<Vec<String>> = const { RefCell::new(Vec::new()) };
 }
 
 enum Exit {
@@ -175,6 +195,7 @@ impl<'a> Interp<'a> {
                 Step::Panic => {
                     self.panics += 1;
                     let m = msg(self.tid, self.panics);
+                    let _guard = if self.guards { Some(NestedCatchOnDrop(self.panics as u32)) } else { None };
                     panic!("{}", m);
                 }
             }
@@ -186,6 +207,10 @@ impl<'a> Interp<'a> {
 
 /// Runs `prog` on the current (fresh) thread and returns the observations.
 pub fn execute(prog: &[Step], tid: usize, sched: &dyn Sched) -> Vec<Obs> {
+    execute_with(prog, tid, sched, false)
+}
+
+pub fn execute_with(prog: &[Step], tid: usize, sched: &dyn Sched, guards: bool) -> Vec<Obs> {
     let _ = take_sentinel();
     let mut it = Interp {
         prog,
@@ -194,11 +219,15 @@ pub fn execute(prog: &[Step], tid: usize, sched: &dyn Sched) -> Vec<Obs> {
         panics: 0,
         obs: Vec::new(),
         sched,
+        guards,
     };
     let r = catch_unwind(AssertUnwindSafe(|| {
         it.run_frame(0);
     }));
     let mut obs = std::mem::take(&mut it.obs);
+    for p in DROP_PROBLEMS.with(|d| std::mem::take(&mut *d.borrow_mut())) {
+        obs.push(Obs::FrameErrOther(p));
+    }
     let seen: Vec<usize> = take_sentinel()
         .iter()
         .filter_map(|m| find_msg(m, tid, it.panics))
@@ -516,6 +545,39 @@ pub fn run(run: &Run) {
         if i % 4001 == 0 {
             run.sample("programs", 5, || json!({"program": show(&prog), "observations": format!("{:?}", want)}));
         }
+    });
+
+    // ---- the same programs with a destructor that calls catch_panic while each panic
+    // unwinds (a catch step between the panic and the frame that receives it): the
+    // observations must be exactly those of the plain program
+    let max_len_d = if run.opts.thorough() { 5 } else { 4 };
+    let total_d = count_programs(STEPS.len(), max_len_d);
+    run.exhaustive("programs-with-destructors", true);
+    run.parallel("programs-with-destructors", total_d, |i, l| {
+        let prog = decode(i, &STEPS, max_len_d);
+        if !prog.contains(&Step::Panic) {
+            return;
+        }
+        let p2 = prog.clone();
+        let got = std::thread::Builder::new()
+            .spawn(move || execute_with(&p2, 0, &NoSched, true))
+            .unwrap()
+            .join();
+        l.evals += 1;
+        l.count("programs_with_catching_destructor");
+        let want = model(&prog);
+        match got {
+            Ok(got) if got == want => {}
+            Ok(got) => run.violation(
+                "C19/program-with-destructor/observations-differ",
+                "model",
+                "programs-with-destructors",
+                i,
+                json!({"program": show(&prog), "expected": format!("{:?}", want), "observed": format!("{:?}", got)}),
+            ),
+            Err(_) => run.violation("C19/program-with-destructor/thread-died", "model", "programs-with-destructors", i, json!({"program": show(&prog)})),
+        }
+        run.distinct(i.wrapping_mul(0x9E37_79B9_7F4A_7C15) ^ 0xd);
     });
 
     // ---- many threads at once: each catch_panic returns its OWN panic's text.
